@@ -2,7 +2,7 @@
 import ECAgent.Core as core
 from ECAgent.Decode import IDecodable
 
-from vlib.fixtures.decodables_state import EVENTS, CURRENT   # shared by this module and its alias module
+from vlib.fixtures.decodables_state import EVENTS, CURRENT, SHARED   # shared by this module and its alias module
 
 MODULE = __name__    # the same source is also loaded under a second module name (same symbol names, different module)
 
@@ -57,6 +57,24 @@ class RAgent(core.Agent, IDecodable):
         return RAgent(f"{params['group']}_{i}", m)
 
 
+DynSystem = None      # bound by a pre_system_init hook ('bind'): the description names a class that only exists once its pre hook ran
+
+
 def hook(params):
+    import copy
+    import sys
     m = params.get('model')
     _ev(params['kind'], params.get('name'), None, m if m is not None else CURRENT[0], m)
+    if params.get('bind'):
+        setattr(sys.modules[MODULE], params['bind'], RSystem)
+    if params.get('replace_env') and m is not None:
+        m.set_environment(core.Environment(m))          # e.g. a hook that builds the world from its parameters
+    if params.get('nested'):
+        # the application's shared decoder object is used to build a sub-model from another description while the outer decode
+        # is still in progress; the sub-model's own events are not part of the outer lifecycle
+        n, cur = len(EVENTS), CURRENT[0]
+        inner = SHARED['inner']
+        SHARED['decoder'].decode(copy.deepcopy(inner) if isinstance(inner, dict) else inner)
+        SHARED['nested_runs'] = SHARED.get('nested_runs', 0) + 1
+        del EVENTS[n:]
+        CURRENT[0] = cur
